@@ -678,3 +678,72 @@ pub fn twin_step() {
     step_check(&c);
     assert!(false);
 }
+
+// ===========================================================================
+// C07 (second half): branch selection of area::calc - `?` left iff popped < count, `!` left iff
+// popped == count, NaN always right - for the area shapes of mk_area, popped values symbolic
+// (small fractions or NaN), count symbolic.  Real Num::partial_cmp over the one-limb BigNum::mul.
+// ===========================================================================
+fn calc_check(shape: u8, dom: Dom) {
+    let (sa, ra) = mk_area(shape);
+    let ac = any_u8() as usize;
+    let vals = [any_v(dom, true), any_v(dom, true), any_v(dom, true)];
+    let mut idx = 0usize;
+    let got = crate::core::area::calc(&ra, ac, || {
+        let v = if idx < 3 { num_of_v(vals[idx]) } else { Num::nan() };
+        idx += 1;
+        Ok(v)
+    });
+    // definition
+    let mut node = sa.root;
+    let mut k = 0usize;
+    let mut want: u8 = 0;
+    loop {
+        if node == NIL {
+            want = 0;
+            break;
+        }
+        let (t, l, r) = sa.nodes[node];
+        if t <= 1 {
+            let v = if k < 3 { vals[k] } else { NAN };
+            k += 1;
+            let c = v_cmp_int(v, ac as i32);
+            node = if (t == 0 && c == -1) || (t == 1 && c == 0) { l } else { r };
+        } else {
+            want = t;
+            break;
+        }
+    }
+    match got {
+        Ok(t) => {
+            assert!(t == want, "area evaluation took a different branch than the definition");
+            assert!(idx == k, "area evaluation popped a different number of values");
+        }
+        Err(_) => assert!(false, "area evaluation failed"),
+    }
+    vcover!();
+    std::mem::forget(ra);
+}
+macro_rules! calc {
+    ($name:ident, $shape:expr, $dom:expr) => {
+        #[cfg_attr(kani, kani::proof)]
+        #[cfg_attr(kani, kani::stub(BigNum::mul, m_mul))]
+        #[cfg_attr(kani, kani::stub(BigNum::new, m_new1))]
+        #[cfg_attr(kani, kani::stub(std::fmt::format, fmt_model))]
+        pub fn $name() {
+            calc_check($shape, $dom);
+        }
+    };
+}
+// @h prop=C07 unwind=8 rec=3 timeout=600 mem=12 stubs=BigNum::mul,new->one-limb_models what=area::calc_on_[h]?[_]:left_iff_popped<count;integers_-128..127_or_NaN,count_0..255
+calc!(calc_q_int, 3, Dom::I8);
+// @h prop=C07 unwind=8 rec=3 timeout=600 mem=12 stubs=BigNum::mul,new->one-limb_models what=area::calc_on_[h]![h]:left_iff_popped==count
+calc!(calc_e_int, 4, Dom::I8);
+// @h prop=C07 unwind=8 rec=3 timeout=900 mem=12 stubs=BigNum::mul,new->one-limb_models what=area::calc_on_[h]?[_]_with_small_fractions
+calc!(calc_q_frac, 3, Dom::Frac);
+// @h prop=C07 unwind=8 rec=4 timeout=900 mem=12 stubs=BigNum::mul,new->one-limb_models what=area::calc_on_[[h]![h]]?[h]:nested,two_pops
+calc!(calc_qe_int, 5, Dom::I8);
+// @h prop=C07 unwind=8 rec=4 timeout=900 mem=12 stubs=BigNum::mul,new->one-limb_models what=area::calc_on__?[[h]?[white]]:right_nesting
+calc!(calc_qq_int, 6, Dom::I8);
+// @h prop=C07 unwind=8 rec=4 timeout=900 mem=12 tier=thorough stubs=BigNum::mul,new->one-limb_models what=area::calc_on__![[h]!_]_with_fractions
+calc!(calc_ee_frac, 7, Dom::Frac);
